@@ -55,12 +55,13 @@ func c12NewEnv(extra ...string) *c12Env {
 var c12Debug *os.File
 
 type c12Result struct {
-	out        *sched.Outcome
-	violations []string
-	outcome    string
-	pruned     bool
-	contended  bool
-	elapsed    time.Duration
+	inconclusive bool
+	out          *sched.Outcome
+	violations   []string
+	outcome      string
+	pruned       bool
+	contended    bool
+	elapsed      time.Duration
 }
 
 // c12Prepare makes the world of one execution: fresh provider, empty store, one login, then
@@ -248,6 +249,11 @@ func c12Exec(e *c12Env, sc c12Scenario, x *explore.Exec, prune bool, seed int64)
 		res.violations = append(res.violations, "C12/"+key+"\x00"+msg)
 	}
 	switch out.Aborted {
+	case sched.StuckAborted:
+		// a thread blocked outside the scheduler (a primitive of a dependency): inconclusive
+		res.outcome = "given-up:" + sched.StuckAborted
+		res.inconclusive = true
+		return res
 	case "deadlock":
 		add("deadlock", fmt.Sprintf("no thread enabled, blocked: %v", out.Blocked))
 		return res
@@ -364,6 +370,11 @@ func c12Explore(c *Ctx, e *c12Env, sc c12Scenario, bound int, prune bool) {
 	stats := explore.Run(explore.Config{MaxCost: bound, Prune: prune, Deadline: c.Deadline, Shard: c.Shard, Shards: c.Shards, ShardDepth: 3}, func(x *explore.Exec, own bool) {
 		res := c12Exec(e, sc, x, prune, c.Seed)
 		if !own {
+			return
+		}
+		if res.inconclusive {
+			c.Inc("executions_given_up_thread_blocked_outside_the_scheduler")
+			c.Unstable("scenario %+v: %s %v", sc, res.outcome, res.out.Blocked)
 			return
 		}
 		c.Inc("evaluations")
